@@ -427,7 +427,7 @@ func (c *ctx) randValidStream(side byte, nf int, maxPayload int) []sframe {
 	return fs
 }
 
-var chunkSpecs = []string{"-", "r1", "r2", "r3", "1,1,2", "5,1,9", "r7", "r4096", "z,1,z,z,2,z,1,z,3,z,1,1,z,9,z,400,z"}
+var chunkSpecs = []string{"-", "r1", "r2", "r3", "1,1,2", "5,1,9", "r7", "r4096", "z,1,z,z,2,z,1,z,3,z,1,1,z,9,z,400,z", "1,z,2,z,z"}
 var bufSpecs = []string{"1", "3", "4096", "2,7,1", "16"}
 
 func sideState(side byte) byte { return side } // 1 = server side, 2 = client side
